@@ -591,7 +591,8 @@ func TestCorr(t *testing.T) {
 		"Plus mulCeilUint64 on boundary operands. SECOND ROUND: N attestation histories (compass deployed; logic calls, user-contract uploads, validator-balance and reference-block requests; " +
 		"evidence through MsgAddEvidence from a pool of absent / empty-type / unregistered / garbage proofs, transaction proofs with successful, failed and missing receipts, error proofs, balance lists of right and wrong length, proofs of the wrong kind; " +
 		"the same unusable proofs written through the queue object; public access / error data by any validator; gas estimates so that some messages get fees and some never do; end-blocks at growing heights and a jump past the pruning age to a multiple of 50), " +
-		"N/3 histories of the real skyway.EndBlocker on two chains with applied / refused / panicking claims, isNewSnapshotWorthy on equal-order snapshots incl. zero totals and the 1% boundary. non-trivial = a history in which at least one election happened (CHist) / a block run with queued messages (CBlocks)")
+		"N/3 histories of the real skyway.EndBlocker on two chains with applied / refused / panicking claims, isNewSnapshotWorthy on equal-order snapshots incl. zero totals and the 1% boundary, " +
+		"the real paloma BeginBlock after a really applied upgrade for (binary version, completed upgrade) pairs with multi-digit components, pre-releases, build metadata, shorthands and invalid strings. non-trivial = a history in which at least one election happened (CHist) / a block run with queued messages (CBlocks)")
 
 	// ---- corpus first: F6 and friends ----
 	corpus, _ := filepath.Glob("/verif/harness/corpus/C09/*.json")
@@ -715,6 +716,9 @@ func TestCorr(t *testing.T) {
 		skyHistory(t, run, genSkyHistory(run))
 		run.Count("source", "skyway-history")
 	}
+
+	// ---- the version gate: real paloma BeginBlock over (binary version, completed upgrade) pairs ----
+	gateCases(t, run, run.N/3, gateCorpus)
 
 	if err := run.Finish("Sys.EndBlock Sys.EndBlockAttest Sys.EndBlockMods Corr.C09", "C09.case", "C09.check"); err != nil {
 		t.Fatal(err)
